@@ -74,6 +74,8 @@ type keySpec struct {
 var modeNames = [4]string{"fn", "field", "ThenWith(simple)", "ThenWith(field)"}
 
 type sortCase struct {
+	// Wide: the int key K1 takes its four values from the extremes of int (MinInt, -1, 0, MaxInt)
+	Wide  bool      `json:"wide,omitempty"`
 	Entry string    `json:"entry"`
 	Ptr   bool      `json:"ptr"` // descriptor sorts over []*rec instead of []rec
 	Items []item    `json:"items"`
@@ -102,7 +104,16 @@ func (c sortCase) recs() []rec {
 			out[i] = out[it.CopyOf-1]
 			continue
 		}
-		out[i] = rec{K1: fpgo.NewComparableOrdered(it.K1), K2: fpgo.NewComparableString(it.K2), K3: fpgo.NewComparableOrdered(it.K3), ID: i}
+		k1 := it.K1
+		if c.Wide {
+			switch {
+			case k1 <= -2:
+				k1 = math.MinInt
+			case k1 >= 1:
+				k1 = math.MaxInt
+			}
+		}
+		out[i] = rec{K1: fpgo.NewComparableOrdered(k1), K2: fpgo.NewComparableString(it.K2), K3: fpgo.NewComparableOrdered(it.K3), ID: i}
 	}
 	return out
 }
@@ -588,6 +599,7 @@ func account(part string, c sortCase, o outcome) {
 func propComparator(t *rapid.T) {
 	c := sortCase{
 		Entry: rapid.SampledFrom(comparatorEntries).Draw(t, "entry"),
+		Wide:  rapid.IntRange(0, 3).Draw(t, "wide") == 0,
 		Items: genItems(t, 40),
 		Spec:  genSpec(t, 2, false),
 	}
@@ -603,6 +615,7 @@ func propComparator(t *rapid.T) {
 func propDescriptor(t *rapid.T) {
 	c := sortCase{
 		Entry: rapid.SampledFrom(descriptorEntries).Draw(t, "entry"),
+		Wide:  rapid.IntRange(0, 3).Draw(t, "wide") == 0,
 		Ptr:   rapid.Bool().Draw(t, "ptr"),
 		Items: genItems(t, 30),
 		Spec:  genSpec(t, 3, true),
@@ -768,8 +781,13 @@ func propOrdered(t *rapid.T) {
 	switch rapid.IntRange(0, 2).Draw(t, "type") {
 	case 0:
 		in := make([]int, n)
+		pool := []int{-3, -2, -1, 0, 1, 2, 3}
+		if rapid.IntRange(0, 2).Draw(t, "wide") == 0 {
+			// the whole range of int, extremes included (differences of two keys need not fit an int)
+			pool = []int{math.MinInt, math.MinInt + 1, -1 << 40, -1, 0, 1, 1 << 40, math.MaxInt - 1, math.MaxInt}
+		}
 		for i := range in {
-			in[i] = rapid.IntRange(-3, 3).Draw(t, "v")
+			in[i] = rapid.SampledFrom(pool).Draw(t, "v")
 		}
 		checkOrdered(t, "int", fn, asc, in, func(x int) string { return fmt.Sprint(x) })
 	case 1:
